@@ -2,6 +2,8 @@ package rules
 
 import (
 	"fmt"
+	"go/constant"
+	"go/types"
 	"strings"
 
 	"golang.org/x/tools/go/ssa"
@@ -20,6 +22,8 @@ func runC03(r *engine.Run) {
 	r.Rule("DOM-cancel", "see C05: a node that is live again in the child never stays in the child's delete set (the merge would delete it from the parent)")
 	r.Rule("FRESH-node", "in the trie operations no node field store, node mutator call (SetValue, PutChild, SetOrigin, SetVersion, SetOriginTracker, Decode, CopyFrom) or in-place byte-slice write (append base, copy destination, element store) targets memory that derives from a node handed out by the store/cache, from a caller's argument or from a shallow copy; only constructor results, Clone() results, concat/make results and literals may be written (interprocedural source-label dataflow, parameters by fixpoint over call sites)")
 	r.Rule("DOM-adopt", "in MergeMPTChanges, MergeChanges and mergeChanges every return either returns a provably non-nil error, returns the result of mergeChanges, is dominated by the adoption of the child's root (mergeChanges call / setRoot(newRoot) / store of newRoot to root), or is reached only where bytes.Equal(this trie's root, the child's root) held: a merge never reports success while the parent keeps a root different from the child's")
+	r.Rule("WHO-tombstones", "LevelNodeDB.DeletedNodes (tombstones of deletes that were not propagated) is never read by the level store's lookups (getNode, GetNode, MultiGetNode, Iterate, Size): tombstones are not cleared when a node is stored again")
+	r.Rule("DOM-mergeall", "in mergeChanges every iteration of the loop over the child's changes passes insertNode (only an error return leaves the loop early): no change is skipped")
 	r.NotDec = append(r.NotDec, "equality of parent and child views after arbitrary histories")
 	whoPrev(r)
 	domMerge(r)
@@ -27,6 +31,8 @@ func runC03(r *engine.Run) {
 	freshNode(r, "C03")
 	domCancel(r)
 	domAdopt(r, "DOM-adopt")
+	whoTombstones(r, "WHO-tombstones")
+	domMergeAll(r, "DOM-mergeall")
 }
 
 func whoPrev(r *engine.Run) {
@@ -100,7 +106,7 @@ func bytesEqualOn(f *ssa.Function, pa, pb func(ssa.Value) bool) []*ssa.Call {
 	var out []*ssa.Call
 	engine.Instrs(f, func(in ssa.Instruction) {
 		c, ok := in.(*ssa.Call)
-		if !ok || !extCalleeIs(c, "bytes", "", "Equal") {
+		if !ok || !isBytesEq(c) {
 			return
 		}
 		a, b := stripCT(c.Call.Args[0]), stripCT(c.Call.Args[1])
@@ -139,8 +145,34 @@ func isParamNamed(name string) func(ssa.Value) bool {
 	}
 }
 
-// truthAt: the bool-valued call c has the given truth on every feasible path to block b.
+// isBytesEq: c compares two byte slices for equality: bytes.Equal(a, b), or
+// bytes.Compare(a, b) whose result is tested against 0.
+func isBytesEq(c ssa.CallInstruction) bool {
+	return extCalleeIs(c, "bytes", "", "Equal") || extCalleeIs(c, "bytes", "", "Compare")
+}
+
+// truthAt: the byte-slice equality expressed by call c (see isBytesEq; or any
+// bool-valued call) has the given truth on every feasible path to block b.
 func truthAt(f *ssa.Function, b *ssa.BasicBlock, c ssa.Value, truth bool) bool {
+	if cc, ok := c.(*ssa.Call); ok && extCalleeIs(cc, "bytes", "", "Compare") {
+		facts, ok := engine.FactsOn(f, b)
+		if !ok {
+			return false
+		}
+		for _, ft := range facts {
+			if ft.Kind != "eq" {
+				continue
+			}
+			for _, side := range [][2]ssa.Value{{ft.A, ft.B}, {ft.B, ft.A}} {
+				if side[0] == c {
+					if k, isK := intConst(side[1]); isK && k == 0 {
+						return ft.Truth == truth
+					}
+				}
+			}
+		}
+		return false
+	}
 	atoms, ok := engine.AtomsOn(f, b)
 	if !ok {
 		return false
@@ -390,4 +422,85 @@ func freshNode(r *engine.Run, prop string) {
 	if prop != "C17" && n < 25 {
 		r.Anchor(rule, fmt.Errorf("unresolved anchor: only %d node write sites found in the trie operations", n))
 	}
+}
+
+// whoTombstones: the level store's delete tombstones (DeletedNodes) are a
+// write-only record for the save path: no lookup of the level store consults
+// them. They are never cleared when a node is stored again, so a lookup that
+// answered from them would hide a node the level (or the level below) holds.
+func whoTombstones(r *engine.Run, rule string) {
+	n := 0
+	for _, f := range funcsOfPkg(r, pkgUtil) {
+		if recvNamed(engine.TopFunc(f)) != "LevelNodeDB" {
+			continue
+		}
+		isLookup := false
+		switch engine.TopFunc(f).Name() {
+		case "getNode", "GetNode", "MultiGetNode", "Iterate", "Size":
+			isLookup = true
+		}
+		o := ord{}
+		engine.Instrs(f, func(in ssa.Instruction) {
+			ld, ok := in.(*ssa.UnOp)
+			if !ok {
+				return
+			}
+			if fld := fieldLoadOf(ld); fld == nil || fld.Name() != "DeletedNodes" {
+				return
+			}
+			// a load used only as the target of a map update is a write
+			readUse := false
+			for _, ref := range engine.Referrers(ld) {
+				if mu, ok := ref.(*ssa.MapUpdate); ok && mu.Map == ssa.Value(ld) {
+					continue
+				}
+				readUse = true
+			}
+			n++
+			r.Check(!(isLookup && readUse), rule, o.next(fn(f)+"|DeletedNodes"), r.P.Pos(ld.Pos()), "tombstones are only recorded here",
+				"a lookup of the level store consults the delete tombstones, which are never cleared when a node is stored again: a node that a merged child removed and a later child re-created (or that still lives in the level below) is reported absent")
+		})
+	}
+	if n < 1 {
+		r.Anchor(rule, fmt.Errorf("unresolved anchor: no use of LevelNodeDB.DeletedNodes found"))
+	}
+}
+
+// domMergeAll: mergeChanges replays every change of the child: inside the loop
+// over the changes, the next iteration is not reachable without passing
+// insertNode (an error return leaves the loop).
+func domMergeAll(r *engine.Run, rule string) {
+	f := r.Fn(rule, pkgUtil, "MerklePatriciaTrie", "mergeChanges")
+	if f == nil {
+		return
+	}
+	var ins *ssa.Call
+	engine.Instrs(f, func(in ssa.Instruction) {
+		if c, ok := in.(*ssa.Call); ok && staticCalleeIs(c, pkgUtil, "MerklePatriciaTrie", "insertNode") && inLoopBody(c.Block()) {
+			ins = c
+		}
+	})
+	if ins == nil {
+		r.Fail(rule, fn(f)+"|replays every change", r.P.Pos(f.Pos()), "mergeChanges no longer replays the child's changes with insertNode inside a loop")
+		return
+	}
+	head := loopHeadOf(ins.Block())
+	if head == nil {
+		r.Anchor(rule, fmt.Errorf("unresolved anchor: loop head of the change replay"))
+		return
+	}
+	bypass := head != ins.Block() && loopBypass(head, ins.Block())
+	r.Check(!bypass, rule, fn(f)+"|replays every change", r.P.Pos(ins.Pos()), "every iteration of the replay loop passes insertNode",
+		"the replay loop can skip a change of the child (a path to the next iteration bypasses insertNode): the skipped node is neither stored at this level nor taken out of the dead set, so the merged state loses or later prunes a live node")
+}
+
+// pathTruth: the truth of the byte-slice equality c on one enumerated path.
+func pathTruth(p map[string]bool, c *ssa.Call) (truth, had bool) {
+	if extCalleeIs(c, "bytes", "", "Compare") {
+		zero := ssa.NewConst(constant.MakeInt64(0), types.Typ[types.Int])
+		v, ok := p[engine.EqKey(c, zero)]
+		return v, ok
+	}
+	v, ok := p[engine.ValKey(c)]
+	return v, ok
 }
